@@ -25,10 +25,12 @@ CLAUSES = {   # minimum evaluations per run (a quick run reaches three to seven 
 RULE = ("seeded class-based cases: 2-5 parents (inbred for two/three/four-way; arbitrary phased, fully heterozygous, "
         "inbred, duplicated and phase-swapped genotypes for dihybrid), 1-7 loci for full enumeration (8-14 loci with the "
         "pairwise-marginal enumeration, up to 40 loci for the chunking clause; a 'large' family with 130-400 markers on one "
-        "chromosome in 2-5 completely linked position groups, enumerated exactly on the groups, mem in {None,1024,50,127,128}, "
+        "chromosome in 2-5 completely linked position groups, enumerated exactly on the groups, mem in {None,default,50,127,128}, "
         "complementary parents differing at more than 127 markers) on 1-3 chromosomes with spread, clustered, "
-        "coincident, far and negative-offset genetic positions, 1-3 traits with gaussian / small-integer / sparse / "
-        "cancelling / mixed-magnitude effects, models with empty and with 1-3 rows of non-marker effects (u_misc), nself in {0..4, inf}, mem in {None,1,2,3,5,L,1024}, every class of "
+        "coincident, far and negative-offset genetic positions, and genetic positions that are NOT monotone in the stored "
+        "marker order of a chromosome (reversed, shuffled, shuffled with ties, one inverted segment; in the large family the "
+        "position groups interleaved), 1-3 traits with gaussian / small-integer / sparse / "
+        "cancelling / mixed-magnitude effects, models with empty and with 1-3 rows of non-marker effects (u_misc), nself in {0..4, inf}, mem in {None,1,2,3,4,5,L,1024,argument omitted}, every class of "
         "pybrops.model.vmat and pybrops.model.pcvmat through from_algmod, from_gmod and the factories, all parent index "
         "tuples (sampled per equality pattern when 4^L states make a tuple expensive).  A case is non-trivial when the "
         "parents are not all identical and some effect is non-zero; distinct = digest of genotypes, effects, layout, "
@@ -40,6 +42,10 @@ ASSUME = [
     "genetic positions are in Morgans and HaldaneMapFunction is the no-interference map r = (1 - exp(-2d))/2; markers on "
     "different chromosomes recombine with probability 1/2",
     "additive value of a doubled haploid with gamete g is intercept + 2 g.u",
+    "markers are stored by chromosome and physical position (group_vrnt); vrnt_genpos need not be monotone in that order. "
+    "The oracle enumerates the loci in map order (crossovers happen between loci adjacent on the genetic map), the library "
+    "gets the stored order",
+    "u_misc (non-marker random effects of the model) is not part of the additive marker effects",
     "dihybrid entries [a, a] of a heterozygous individual are asserted by no clause (the statement's 'equals the "
     "enumeration' and 'zero for identical parents' contradict each other there); they are only counted",
     "trait labels are only observed (counter), the statement does not mention them; taxa labels are part of equivariance",
@@ -111,26 +117,27 @@ def build(ctx, scheme, kind, route, mod, pg, nmating, nprogeny, nself, gmapfn, m
     cls = lib_class(scheme, kind)
     genetic = kind.endswith("genetic")
     nname = "nmating" if kind.startswith("vmat") else "ncross"
+    mk = {} if mem == "default" else {"mem": mem}   # "default": the argument is omitted, the callee's own default applies
     try:
         with Poison(ctx):
             if route == "from_algmod":
                 if genetic:
-                    out = cls.from_algmod(algmod=mod, pgmat=pg, nprogeny=nprogeny, nself=nself, gmapfn=gmapfn, mem=mem, **{nname: nmating})
+                    out = cls.from_algmod(algmod=mod, pgmat=pg, nprogeny=nprogeny, nself=nself, gmapfn=gmapfn, **mk, **{nname: nmating})
                 else:
-                    out = cls.from_algmod(algmod=mod, pgmat=pg, nprogeny=nprogeny, mem=mem)
+                    out = cls.from_algmod(algmod=mod, pgmat=pg, nprogeny=nprogeny, **mk)
             elif route == "from_gmod":
                 if genetic:
-                    out = cls.from_gmod(gmod=mod, pgmat=pg, nprogeny=nprogeny, nself=nself, gmapfn=gmapfn, mem=mem, **{nname: nmating})
+                    out = cls.from_gmod(gmod=mod, pgmat=pg, nprogeny=nprogeny, nself=nself, gmapfn=gmapfn, **mk, **{nname: nmating})
                 else:
-                    out = cls.from_gmod(gmod=mod, pgmat=pg, nprogeny=nprogeny, mem=mem)
+                    out = cls.from_gmod(gmod=mod, pgmat=pg, nprogeny=nprogeny, **mk)
             else:
                 f = lib_factory(scheme, kind)
                 fn = f.from_gmod if route == "factory.from_gmod" else f.from_algmod
                 key = "gmod" if route == "factory.from_gmod" else "algmod"
                 if genetic:
-                    out = fn(pgmat=pg, ncross=nmating, nprogeny=nprogeny, nself=nself, gmapfn=gmapfn, mem=mem, **{key: mod})
+                    out = fn(pgmat=pg, ncross=nmating, nprogeny=nprogeny, nself=nself, gmapfn=gmapfn, **mk, **{key: mod})
                 else:
-                    out = fn(pgmat=pg, nprogeny=nprogeny, mem=mem, **{key: mod})
+                    out = fn(pgmat=pg, nprogeny=nprogeny, **mk, **{key: mod})
         return out, None
     except Exception as e:  # policy 2.1: counted by the caller
         return None, e
@@ -145,8 +152,25 @@ def site_of(scheme, kind):
 
 
 # ---------------------------------------------------------------- generators
+# the last five give genetic positions that are not monotone in the stored marker order of a chromosome
+POSMODES = ["spread", "clustered", "coincident", "far", "offset", "reversed", "shuffled", "shuffled", "ties-shuffled", "one-inversion"]
+
+
+def order_class(chrgrp, genpos):
+    """Suffix of the input class: are the genetic positions monotone in the stored marker order of every chromosome?"""
+    same = chrgrp[1:] == chrgrp[:-1]
+    return ", genetic positions not monotone in marker order" if bool(((numpy.diff(genpos) < 0) & same).any()) else ""
+
+
+def on_map(chrgrp, genpos, h0, h1, u):
+    """Loci re-ordered along the genetic map for the enumeration oracle (the library sees the stored order)."""
+    o = O.map_order(chrgrp, genpos)
+    return chrgrp[o], genpos[o], h0[:, o], h1[:, o], u[o]
+
+
 def gen_layout(g, L, posmode):
-    """Sorted chromosome labels and non-decreasing genetic positions (Morgans) inside every chromosome."""
+    """Sorted chromosome labels and genetic positions (Morgans); non-decreasing inside every chromosome except for the
+    reversed / shuffled / ties-shuffled / one-inversion modes."""
     nchr = int(min(L, g.integers(1, 4)))
     cuts = numpy.sort(g.choice(numpy.arange(1, L), nchr - 1, replace=False)) if nchr > 1 else numpy.array([], dtype=int)
     chrgrp = numpy.ones(L, dtype="int64")
@@ -160,13 +184,25 @@ def gen_layout(g, L, posmode):
         gaps = numpy.where(g.random(L) < 0.5, 0.0, g.uniform(0.01, 0.5, L))
     elif posmode == "far":
         gaps = g.uniform(3.0, 20.0, L)
-    else:  # "offset": positions need not start at zero nor be positive
+    elif posmode == "ties-shuffled":
+        gaps = numpy.where(g.random(L) < 0.4, 0.0, g.uniform(0.01, 0.5, L))
+    else:  # "offset": positions need not start at zero nor be positive; "reversed"/"shuffled": see below
         gaps = g.uniform(0.01, 0.4, L)
     genpos = numpy.zeros(L)
     for ch in numpy.unique(chrgrp):
         ix = numpy.flatnonzero(chrgrp == ch)
         start = float(g.uniform(-2, 2)) if posmode == "offset" else (0.0 if g.random() < 0.5 else float(g.uniform(0, 1)))
-        genpos[ix] = start + numpy.cumsum(numpy.r_[0.0, gaps[ix][1:]])
+        pos = start + numpy.cumsum(numpy.r_[0.0, gaps[ix][1:]])
+        # stored marker order follows chromosome and *physical* position only: the genetic positions of a chromosome
+        # need not be monotone in that order
+        if posmode == "reversed":
+            pos = pos[::-1]
+        elif posmode in ("shuffled", "ties-shuffled"):
+            pos = pos[g.permutation(len(pos))]
+        elif posmode == "one-inversion" and len(pos) >= 2:
+            a = int(g.integers(0, len(pos) - 1)); b = int(g.integers(a + 2, len(pos) + 1))
+            pos[a:b] = pos[a:b][::-1].copy()
+        genpos[ix] = pos
     return chrgrp, genpos
 
 
@@ -377,14 +413,14 @@ def case_mat(ctx, c):
     else:
         L = int(g.integers(1, 8)) if g.random() < 0.8 else int(g.integers(1, 4))
         n = int(g.integers(2, 6)) if scheme != "fourway" else int(g.integers(2, 5))
-    posmode = ["spread", "clustered", "coincident", "far", "offset"][int(g.integers(0, 5))]
+    posmode = POSMODES[int(g.integers(0, len(POSMODES)))]
     chrgrp, genpos = gen_layout(g, L, posmode)
     h0, h1, pcls = gen_parents(g, n, L, scheme)
     u, beta, ucls = gen_effects(g, L)
     nself = gen_nself(g, L, ctx.tier) if genetic else 0
     if big and nself == INF and g.random() < 0.5:
         nself = 3
-    mem = [None, 1, 2, 3, 5, L, 1024][int(g.integers(0, 7))]
+    mem = [None, 1, 2, 3, 5, L, 1024, 4, "default"][int(g.integers(0, 9 if genetic else 7))]
     routes = ["from_algmod", "from_gmod"] + (["factory.from_gmod", "factory.from_algmod"] if (scheme, kind) in FACTORIES else [])
     route = routes[int(g.integers(len(routes)))]
     nmating, nprogeny = int(g.integers(1, 20)), int(g.integers(1, 80))
@@ -430,22 +466,25 @@ def case_mat(ctx, c):
     if not ctx.check("C12.genetic" if genetic else "C12.genic", M.shape == want_shape, site, "matrix has one entry per parent tuple and trait", "shape",
                      what="shape %s, expected %s" % (M.shape, want_shape), witness=summary, coords=coords):
         return
-    hap = [(h0[i], h1[i]) for i in range(n)]
+    mchr, mpos, mh0, mh1, mu = on_map(chrgrp, genpos, h0, h1, u)
+    hap = [(mh0[i], mh1[i]) for i in range(n)]
     homoz = [bool((h0[i] == h1[i]).all()) for i in range(n)]
     scale = var_scale(u)
     tol = entry_tol(kind, scale)
     clause = "C12.genetic" if genetic else "C12.genic"
-    r = O.interval_r(chrgrp, genpos, unlinked=not genetic)
+    r = O.interval_r(mchr, mpos, unlinked=not genetic)
     ons = nself if genetic else 0
     if big:
         oracle = O.PairwiseOracle(r)
         tuples = pick_tuples(g, scheme, n, 10 if ons != INF else 6, homoz)
-        cov_of = lambda idx: oracle.cov(scheme, hap, idx, ons, u)
+        cov_of = lambda idx: oracle.cov(scheme, hap, idx, ons, mu)
     else:
         E = O.Engine(r)
         tuples = pick_tuples(g, scheme, n, tuple_budget(L, ons, ctx.tier), homoz)
-        cov_of = lambda idx: O.exact_moments(E, scheme, hap, idx, ons, u, beta)[1]
+        cov_of = lambda idx: O.exact_moments(E, scheme, hap, idx, ons, mu, beta)[1]
     rel = "entry == exact gamete enumeration" if genetic else "entry == exact gamete enumeration with all loci unlinked"
+    ocls = order_class(chrgrp, genpos)
+    ctx.sumnote("mat cases with non-monotone genetic positions" if ocls else "mat cases with monotone genetic positions")
     for idx in tuples:
         tc = tclass(scheme, idx, homoz)
         if tc == "female == male, heterozygous parent":
@@ -456,7 +495,7 @@ def case_mat(ctx, c):
         ok = close(got, exp, tol)
         ctx.sumnote("entries judged against the enumeration: " + type(obj).__name__)
         ctx.maxnote("worst |reported - enumerated| / tolerance (passing entries)", slack(got, exp, tol) if ok else 0.0)
-        ctx.check(clause, ok, site, rel, tc,
+        ctx.check(clause, ok, site, rel, tc + (ocls if genetic else ""),
                   what="%s%s nself=%s: reported %s, enumeration %s" % (lib_class(scheme, kind).__name__, list(idx), nself_name(nself),
                                                                       numpy.asarray(got).ravel()[:4].tolist(), numpy.ravel(exp)[:4].tolist()),
                   witness=dict(summary, index=list(idx), reported=numpy.asarray(got), enumerated=exp), coords=coords)
@@ -545,7 +584,7 @@ def case_chunk(ctx, c):
     kind = ["vmat.genetic", "pcvmat.genetic", "vmat.genetic", "vmat.genic", "vmat.genetic", "pcvmat.genic"][int(g.integers(0, 6))]
     L = int(g.integers(2, 41)) if scheme != "fourway" else int(g.integers(2, 25))
     n = int(g.integers(2, 5)) if scheme != "fourway" else int(g.integers(2, 4))
-    posmode = ["spread", "clustered", "coincident", "far", "offset"][int(g.integers(0, 5))]
+    posmode = POSMODES[int(g.integers(0, len(POSMODES)))]
     chrgrp, genpos = gen_layout(g, L, posmode)
     h0, h1, pcls = gen_parents(g, n, L, scheme)
     u, beta, ucls = gen_effects(g, L)
@@ -569,14 +608,15 @@ def case_chunk(ctx, c):
     ctx.sumnote("cases with non-empty u_misc" if u_misc is not None else "cases with empty u_misc")
     pg, mod = make_inputs(h0, h1, chrgrp, genpos, u, beta, g, True, u_misc)
     H = HaldaneMapFunction()
+    ctx.sumnote("chunk cases with non-monotone genetic positions" if order_class(chrgrp, genpos) else "chunk cases with monotone genetic positions")
     ref, rexc = build(ctx, scheme, kind, "from_algmod", mod, pg, 1, 10, nself, H, None)
     if rexc is not None:
         ctx.raised(site + " via from_algmod", rexc)
     tol = entry_tol(kind, var_scale(u))
     for mem in mems:
         obj, exc = build(ctx, scheme, kind, "from_algmod", mod, pg, 1, 10, nself, H, mem)
-        rem = "chunk size divides chromosome length" if all(x % mem == 0 for x in chrlen) else (
-            "chunk size exceeds chromosome length" if mem > chrlen.max() else "chunk size leaves a partial last chunk")
+        rem = ("chunk size divides chromosome length" if all(x % mem == 0 for x in chrlen) else (
+            "chunk size exceeds chromosome length" if mem > chrlen.max() else "chunk size leaves a partial last chunk")) + order_class(chrgrp, genpos)
         if (exc is None) != (rexc is None):
             ctx.check("C12.chunk", False, site, "raises iff mem=None raises", rem,
                       what="mem=%s: %s; mem=None: %s" % (mem, repr(exc)[:150], repr(rexc)[:150]), witness=dict(summary, mem=mem), coords=coords)
@@ -616,7 +656,7 @@ def case_uc(ctx, c):
     k = NTUP[scheme]
     L = int(g.integers(1, 7))
     n = int(g.integers(max(2, k if g.random() < 0.7 else 2), 6 if k < 4 else 5))
-    posmode = ["spread", "clustered", "coincident", "far", "offset"][int(g.integers(0, 5))]
+    posmode = POSMODES[int(g.integers(0, len(POSMODES)))]
     chrgrp, genpos = gen_layout(g, L, posmode)
     h0, h1, pcls = gen_parents(g, n, L, scheme)
     u, beta, ucls = gen_effects(g, L)
@@ -677,8 +717,9 @@ def case_uc(ctx, c):
         return
     # the library's own variance matrix, only to attribute a mismatch to the right mechanism
     vobj, vexc = build(ctx, scheme, kind, "factory.from_gmod", mod, pg, common["ncross"], common["nprogeny"], nself, H, 1024)
-    E = O.Engine(O.interval_r(chrgrp, genpos))
-    hap = [(h0[i], h1[i]) for i in range(n)]
+    mchr, mpos, mh0, mh1, mu = on_map(chrgrp, genpos, h0, h1, u)
+    E = O.Engine(O.interval_r(mchr, mpos))
+    hap = [(mh0[i], mh1[i]) for i in range(n)]
     homoz = [bool((h0[i] == h1[i]).all()) for i in range(n)]
     inten = selection_intensity(pctl)
     vscale = numpy.diag(var_scale(u))
@@ -690,7 +731,7 @@ def case_uc(ctx, c):
         if tc == "female == male, heterozygous parent":
             ctx.sumnote("dihybrid [a,a] usefulness rows of a heterozygous parent (asserted by no clause)")
             continue
-        mean, cov = O.exact_moments(E, scheme, hap, idx, nself, u, beta)
+        mean, cov = O.exact_moments(E, scheme, hap, idx, nself, mu, beta)
         var = numpy.clip(numpy.diag(cov), 0.0, None)
         exp = mean + inten * numpy.sqrt(var)
         # tolerance = own rounding + the variance tolerance propagated through the square root:
@@ -719,14 +760,15 @@ def case_large(ctx, c):
     from pybrops.popgen.gmap.HaldaneMapFunction import HaldaneMapFunction
     g = ctx.rng("large", c)
     scheme = ["twoway", "threeway", "fourway", "dihybrid"][int(g.integers(0, 4))]
-    kind = "vmat.genetic"
-    if scheme in ("twoway", "threeway") and g.random() < 0.6:
-        kind = "pcvmat.genetic"
+    kind = "pcvmat.genetic" if g.random() < 0.5 else "vmat.genetic"
     G = int(g.integers(2, 6))
     nm = int(g.integers(130, 401))
     n = int(g.integers(2, 4))
     sizes = 1 + g.multinomial(nm - G, g.dirichlet(numpy.ones(G)))
     grp = numpy.repeat(numpy.arange(G), sizes)
+    interleaved = bool(g.random() < 0.5)
+    if interleaved:                               # markers of the position groups interleaved in stored (physical) order
+        grp = grp[g.permutation(nm)]
     posmode = ["spread", "clustered", "far", "offset"][int(g.integers(0, 4))]
     _, gpos = gen_layout_one(g, G, posmode)
     genpos = gpos[grp]
@@ -747,17 +789,17 @@ def case_large(ctx, c):
     u, beta, ucls = gen_effects(g, nm)
     u_misc = gen_umisc(g, u.shape[1])
     nself = gen_nself(g, G, ctx.tier)
-    mems = [None, 1024, 50, 127, 128]
+    mems = [None, "default", 50, 127, 128]
     ndiff = int((h0[0] != h0[1]).sum())
     coords = [c, "large"]
     site = site_of(scheme, kind)
     ctx.case("large:%s/%s/%s" % (scheme, kind, posmode), h0, h1, u, genpos, nself_name(nself), u_misc is not None)
-    summary = {"family": "large", "scheme": scheme, "class": lib_class(scheme, kind).__name__, "nself": nself_name(nself), "markers": nm,
-               "group_sizes": sizes.tolist(), "group_genpos": gpos.tolist(), "segment_A": A.tolist(), "segment_B": B.tolist(),
+    summary = {"family": "large", "scheme": scheme, "class": lib_class(scheme, kind).__name__, "nself": nself_name(nself), "markers": nm, "groups_interleaved": interleaved,
+               "group_of_marker": grp.tolist(), "group_sizes": sizes.tolist(), "group_genpos": gpos.tolist(), "segment_A": A.tolist(), "segment_B": B.tolist(),
                "types_phase0": x0.tolist(), "types_phase1": x1.tolist(), "markers_differing_parent0_parent1": ndiff,
                "u_a": u.tolist(), "beta": beta.tolist(), "u_misc": None if u_misc is None else u_misc.tolist()}
     if c % 5 == 0:
-        ctx.sample({k: v for k, v in summary.items() if k not in ("segment_A", "segment_B", "u_a")})
+        ctx.sample({k: v for k, v in summary.items() if k not in ("segment_A", "segment_B", "u_a", "group_of_marker")})
     ctx.sumnote("large cases: parents 0 and 1 differ at more than 127 markers" if ndiff > 127 else "large cases: parents 0 and 1 differ at <= 127 markers")
     pg, mod = make_inputs(h0, h1, chrgrp, genpos, u, beta, g, True, u_misc)
     H = HaldaneMapFunction()
@@ -781,7 +823,7 @@ def case_large(ctx, c):
             mats[mem] = exc
             continue
         M = mats[mem] = numpy.asarray(obj.mat)
-        blk = "more than 127 segregating markers in a chunk" if (ndiff > 127 and (mem is None or mem > 127)) else "at most 127 segregating markers in a chunk"
+        blk = ("more than 127 segregating markers in a chunk" if (ndiff > 127 and (mem is None or mem == "default" or mem > 127)) else "at most 127 segregating markers in a chunk") + order_class(chrgrp, genpos)
         for idx, exp in expect.items():
             got = M[tuple(idx)]
             ok = close(got, exp, tol)
@@ -794,7 +836,7 @@ def case_large(ctx, c):
     ref = mats[None]
     for mem in mems[1:]:
         A_ = mats[mem]
-        rem = "many markers per chromosome, " + ("chunk holds the whole chromosome" if mem >= nm else "several chunks")
+        rem = "many markers per chromosome, " + ("chunk holds the whole chromosome" if (mem == "default" or mem >= nm) else "several chunks") + order_class(chrgrp, genpos)
         if isinstance(A_, Exception) != isinstance(ref, Exception):
             ctx.check("C12.chunk", False, site, "raises iff mem=None raises", rem, what="mem=%s: %r; mem=None: %r" % (mem, A_, ref),
                       witness=dict(summary, mem=mem), coords=coords)
@@ -828,6 +870,10 @@ def run_shard(ctx):
     for name, (fn, q, t) in FAMILIES.items():
         for c in ctx.case_ids(q, t):
             fn(ctx, c)
+    # raised != held: a class whose constructor raised on every call reported no value and is NOT covered by the verdict
+    judged = {k.split(": ", 1)[1] for k in ctx.sumnotes if k.startswith("entries judged against the enumeration: ")}
+    never = sorted({op.split(".from_algmod")[0] for op in ctx.raised_ if ".from_algmod via " in op} - judged)
+    ctx.note("classes whose constructor always raised (no value reported, not covered by the verdict)", never)
 
 
 def replay(ctx, coords):
